@@ -212,6 +212,22 @@ func genLargeNode(r *hx.Rng, depth int) *node {
 		}
 		return n
 	}
+	switch r.Intn(6) {
+	case 0: // a trun leaf: mostly well formed (count matches), sometimes an inflated count or a cut body
+		flags := uint32(r.Intn(2)) | uint32(r.Intn(2))<<2 | uint32(r.Intn(2))<<8 | uint32(r.Intn(2))<<9 | uint32(r.Intn(2))<<10 | uint32(r.Intn(2))<<11
+		cnt := r.Intn(4)
+		b := trunBody(r, 0, flags, uint32(cnt+r.Pick(0, 0, 0, 1)), cnt)
+		if r.Intn(8) == 0 && len(b) > 8 {
+			b = b[:len(b)-r.Range(1, 4)]
+		}
+		return &node{name: "trun", body: b, large: r.Intn(8) == 0}
+	case 1: // a senc leaf
+		b := cat(u32(uint32(r.Pick(0, 0, 2, 2, 0x01000000))), u32(uint32(r.Pick(0, 1, 2, 9))), r.Bytes(r.Pick(0, 2, 8, 16, 22), nil))
+		if r.Intn(8) == 0 {
+			b = b[:r.Intn(len(b))]
+		}
+		return &node{name: "senc", body: b, large: r.Intn(8) == 0}
+	}
 	return &node{name: leafNames[r.Intn(len(leafNames))], payload: r.Pick(0, 0, 1, 4, 9), large: r.Intn(2) == 0}
 }
 
